@@ -10,7 +10,10 @@ for d in seeded/*${PAT}*/; do
   name=$(basename $d)
   case "$OPEN" in *" $name "*) echo "open $name (recorded miss)"; continue;; esac
   tier=quick; case "$THOROUGH" in *" $name "*) tier=thorough;; esac
-  out=$(bash selftest/recheck_seed.sh $name "" $tier 2>&1 | grep -v WARNING | head -1)
+  chk=""
+  # a change in a file that two properties are anchored in may be caught by the OTHER property's check (see its meta.json)
+  case "$name" in C17-r10-edge-combinations-shared-by-could-be-isomorphic) chk=C15;; esac
+  out=$(bash selftest/recheck_seed.sh $name "$chk" $tier 2>&1 | grep -v WARNING | head -1)
   n=$((n+1))
   case "$out" in *"exit=1"*) echo "ok   $out" | cut -c1-220;; *) echo "MISS $out" | cut -c1-220; bad=$((bad+1));; esac
 done
